@@ -464,11 +464,21 @@ func runGraph(c *core.Ctx) core.Result {
 				if n.Name != root.Name {
 					msg = "root name differs"
 				}
-				if msg == "" && root.Next > 0 {
-					msg = iso.walk(root.Next, n.Next, "root.next")
-				}
-				if msg == "" && root.Other > 0 {
-					msg = iso.walk(root.Other, n.Other, "root.other")
+				for _, e := range []struct {
+					f  string
+					to int
+					p  *Node
+				}{{"next", root.Next, n.Next}, {"other", root.Other, n.Other}} {
+					if msg != "" {
+						break
+					}
+					if e.to < 0 {
+						if e.p != nil {
+							msg = "root." + e.f + ": null exported as non-nil"
+						}
+					} else {
+						msg = iso.walk(e.to, e.p, "root."+e.f)
+					}
 				}
 			}
 		case "node-map":
